@@ -38,7 +38,7 @@ def main():
             sys.exit(0 if ok else 1)
 
         # 1. proofs: full incremental build, forbidden constructs, the property's theorems
-        built, blog = core.ensure_built()
+        built, blog = core.ensure_built(core.coq_targets_for(mod, pid))
         forbidden = core.grep_forbidden()
         obl = core.check_props(pid, ctx.workdir)
         ctx.obl = obl
@@ -49,6 +49,7 @@ def main():
             broken.append(("forbidden", "; ".join(forbidden)))
         if not built:
             ctx.notes["build_log_tail"] = blog[-1500:]
+            broken.append(("build", "the Coq development needed by this check does not build: " + blog[-800:]))
 
         # 2. source facts regenerated from /repo and compared with the constants the model was proved with
         from . import srcfacts
